@@ -210,6 +210,8 @@ def build(rng, tree, n_tables, opts):
     if second_ot:
         half = len(obj_entries) // 2
         first, second = obj_entries[:half] + [(1, second_ot, ALIGN, 1)], obj_entries[half:]
+        if opts.get("back_reference"):
+            second = second + [(1, 0x2000, ALIGN, 1)]  # the chained table lists the first table again: it is already loaded and must not be loaded twice
         placed.append((0x2000, object_table(first)))
         placed.append((second_ot, object_table(second)))
     else:
